@@ -9,11 +9,13 @@ package cluster
 
 import (
 	"bufio"
+	"context"
 	"encoding/json"
 	"fmt"
 	"os"
 	"sort"
 	"strings"
+	"sync"
 	"testing"
 	"time"
 
@@ -86,8 +88,10 @@ type kase struct {
 	Trace []trJ          `json:"trace"`
 	Impl  map[string]any `json:"impl"`
 	// usage-changing plugin calls made while the pod lock of the node\'s pod was not held
-	LockViol []string         `json:"lock_viol,omitempty"`
-	Setup    []map[string]any `json:"setup,omitempty"` // how to rebuild the pre-state (replay)
+	LockViol []string `json:"lock_viol,omitempty"`
+	// the caller\'s context was cancelled (or its deadline expired) exactly before / after this call
+	Cancel map[string]any   `json:"cancel,omitempty"`
+	Setup  []map[string]any `json:"setup,omitempty"` // how to rebuild the pre-state (replay)
 }
 
 // world = one cluster + id canonicalisation
@@ -99,6 +103,51 @@ type world struct {
 	// in-progress markers that existed before the operation under test (left behind by an earlier
 	// faulty operation — C13/C14's business): reported only if they change
 	oldMarkers map[string]int
+	callCtx    context.Context // context of the API calls (default: the cluster's)
+	hung       bool            // an operation did not return: the run is abandoned
+}
+
+func (w *world) ctx() context.Context {
+	if w.callCtx != nil {
+		return w.callCtx
+	}
+	return w.cl.Ctx()
+}
+
+// trigCtx is a context that ends when fire is called: as a cancellation or as an expired deadline.
+type trigCtx struct {
+	context.Context
+	mu       sync.Mutex
+	done     chan struct{}
+	err      error
+	deadline bool
+}
+
+func newTrigCtx(parent context.Context, deadline bool) *trigCtx {
+	return &trigCtx{Context: parent, done: make(chan struct{}), deadline: deadline}
+}
+func (c *trigCtx) Done() <-chan struct{} { return c.done }
+func (c *trigCtx) Err() error {
+	c.mu.Lock()
+	defer c.mu.Unlock()
+	return c.err
+}
+func (c *trigCtx) Deadline() (time.Time, bool) {
+	if c.deadline {
+		return time.Now().Add(time.Hour), true
+	}
+	return time.Time{}, false
+}
+func (c *trigCtx) fire() {
+	c.mu.Lock()
+	if c.err == nil {
+		c.err = context.Canceled
+		if c.deadline {
+			c.err = context.DeadlineExceeded
+		}
+		close(c.done)
+	}
+	c.mu.Unlock()
 }
 
 func (w *world) idOf(real string) int {
@@ -268,14 +317,14 @@ type outcome struct {
 }
 
 func (w *world) exec(o op, plan ckit.Plan) outcome {
-	cl, ctx := w.cl, w.cl.Ctx()
+	cl, ctx := w.cl, w.ctx()
 	var out outcome
 	out.ret = "ok"
 	nodeOf := map[string]string{} // real id -> node before the op
 	for _, x := range cl.Snapshot().Workloads {
 		nodeOf[x.ID] = x.Node
 	}
-	kind, msg := hx.Guard(60*time.Second, func() {
+	kind, msg := hx.Guard(25*time.Second, func() {
 		out.trace = cl.Traced(plan, func() {
 			switch o.s("op") {
 			case "create":
@@ -352,6 +401,10 @@ func (w *world) exec(o op, plan ckit.Plan) outcome {
 				if err := cl.C.RemoveNode(ctx, o.s("node")); err != nil {
 					out.ret = "fail"
 				}
+			case "fixnode":
+				if _, err := cl.C.NodeResource(ctx, o.s("node"), o.b("fix")); err != nil {
+					out.ret = "fail"
+				}
 			case "setnode":
 				raw := resourcetypes.RawParams{}
 				if m := o.i("mem"); m != 0 {
@@ -384,6 +437,10 @@ func (w *world) exec(o op, plan ckit.Plan) outcome {
 	})
 	if kind != "" {
 		out.ret = kind + ":" + msg
+		if kind == "timeout" {
+			w.hung = true
+			out.trace = ckit.Foreground(cl.Trace())
+		}
 	}
 	return out
 }
@@ -419,7 +476,7 @@ func (w *world) lockViolations(evs []ckit.Event) []string {
 			held[e.Node]++
 		case e.Kind == "unlock":
 			held[e.Node]--
-		case usageWrites[e.Kind]:
+		case usageWrites[e.Kind] || (e.Kind == "pluginGetNodeResourceInfo" && e.Arg == "fix=true"):
 			if p, ok := pods[e.Node]; ok && held["plock_"+p] <= 0 {
 				out = append(out, e.Kind+"@"+e.Node)
 			}
@@ -671,6 +728,8 @@ func (w *world) analyse(o op, out *outcome, pre snapJ, ifault *ckit.Addr) (args 
 		args = map[string]any{"node": o.s("node"), "cap": zeroRes(1)[0]} // cap filled by setCap from the twin
 	case "removenode":
 		args = map[string]any{"node": o.s("node")}
+	case "fixnode":
+		args = map[string]any{"node": o.s("node"), "fix": o.b("fix")}
 	case "setnode":
 		refused := false
 		for _, e := range tr {
@@ -785,7 +844,7 @@ func (g *gen) nextOp(pre snapJ, only string) op {
 	r := g.r
 	cur := g.current(pre)
 	for tries := 0; tries < 20; tries++ {
-		kind := hx.Pick(r, "create", "create", "create", "remove", "remove", "dissociate", "realloc", "realloc", "replace", "setnode", "addnode", "removenode")
+		kind := hx.Pick(r, "create", "create", "create", "remove", "remove", "dissociate", "realloc", "realloc", "replace", "setnode", "addnode", "removenode", "fixnode")
 		if only == "nodeops" {
 			if r.Chance(30) {
 				kind = hx.Pick(r, "addnode", "removenode", "removenode", "setnode")
@@ -900,6 +959,10 @@ func (g *gen) nextOp(pre snapJ, only string) op {
 			}
 			o["node"], o["pod"], o["cpu"], o["mem"] = spec.Name, spec.Pod, spec.CPU, int(spec.Memory)
 			return o
+		case "fixnode":
+			o["node"] = cur[r.Intn(len(cur))].Name
+			o["fix"] = r.Chance(70)
+			return o
 		case "removenode":
 			o["node"] = cur[r.Intn(len(cur))].Name
 			if r.Chance(50) { // prefer a node without workloads (a node with workloads is refused)
@@ -986,13 +1049,15 @@ func TestGen(t *testing.T) {
 	cl := ckit.NewCluster(t, ckit.Options{TraceLocks: true})
 	d := &driver{t: t, cl: cl, r: r, out: out, budget: budget}
 	d.corpus()
-	if thorough {
-		d.concurrent(40)
-	} else {
-		d.concurrent(8)
+	if !d.hung {
+		if thorough {
+			d.concurrent(40)
+		} else {
+			d.concurrent(10)
+		}
 	}
 	hist := 0
-	for out.N < budget {
+	for out.N < budget && !d.hung {
 		hist++
 		cl.Wipe()
 		w := &world{t: t, cl: cl, ids: map[string]int{}, next: 1}
@@ -1002,16 +1067,18 @@ func TestGen(t *testing.T) {
 		if thorough {
 			nops = r.Range(5, 40)
 		}
-		for k := 0; k < nops && out.N < budget; k++ {
+		for k := 0; k < nops && out.N < budget && !w.hung; k++ {
 			pre := w.preSnap()
 			o := g.nextOp(pre, only)
 			d.step(w, o, pre, fmt.Sprintf("s%d-h%d-o%d", seed, hist, k), setup, thorough, r.Chance(25))
 		}
+		d.hung = d.hung || w.hung
 	}
 	t.Logf("histories=%d cases=%d", hist, out.N)
 }
 
 type driver struct {
+	hung   bool // an operation never returned: stop
 	t      *testing.T
 	cl     *ckit.Cluster
 	r      *hx.Rng
@@ -1040,7 +1107,18 @@ func (d *driver) step(w *world, o op, pre snapJ, base string, setup []map[string
 			addrs = addrs[:3]
 		}
 	}
+	planned := 0
+	for _, e := range res.trace {
+		if e.Kind == "pluginAlloc" {
+			if c, ok := e.Data["count"].(int); ok {
+				planned += c
+			}
+		}
+	}
 	for ai, a := range addrs {
+		if w.hung {
+			return
+		}
 		if out.N >= d.budget && !strings.HasPrefix(base, "corpus") {
 			break
 		}
@@ -1061,13 +1139,61 @@ func (d *driver) step(w *world, o op, pre snapJ, base string, setup []map[string
 			cpAfter = nil // continue the history from this faulty post-state
 		}
 	}
-	if cpAfter != nil {
+	// caller cancellation / deadline expiry exactly before or after a chosen call of the operation
+	cands := []ckit.Addr{}
+	for _, a := range ckit.Addresses(noLocks(res.trace)) {
+		if cancelKinds[a.Kind] {
+			cands = append(cands, a)
+		}
+	}
+	if !all && len(cands) > 0 {
+		cands = []ckit.Addr{cands[r.Intn(len(cands))]}
+		if !r.Chance(40) {
+			cands = nil
+		}
+	}
+	for ci, a := range cands {
+		for _, after := range []bool{false, true} {
+			if w.hung {
+				return
+			}
+			if !all && r.Chance(50) {
+				continue
+			}
+			cl.Restore(cpBefore)
+			w.next = pre.Next
+			deadline := (ci+map[bool]int{false: 0, true: 1}[after])%2 == 1
+			tc := newTrigCtx(cl.Ctx(), deadline)
+			w.callCtx = tc
+			a := a
+			cres := w.exec(o, ckit.Plan{Hook: &a, HookAfter: after, HookFn: tc.fire})
+			w.callCtx = nil
+			cargs, _ := w.analyse(o, &cres, pre, nil)
+			cpost := w.snap()
+			setCap(o, cargs, post)
+			cargs["planned"] = planned
+			how := "cancel"
+			if deadline {
+				how = "deadline"
+			}
+			out.Emit(&kase{ID: fmt.Sprintf("%s-c%d%v", base, ci, after), Op: o.s("op"), Args: cargs, Req: o, Pre: pre, Post: cpost,
+				Msgs: nz(cres.msgs), Ret: cres.ret, Trace: trOf(cres.trace), Impl: map[string]any{"diffs": cpost.Diffs},
+				LockViol: w.lockViolations(cres.trace), Setup: setup,
+				Cancel: map[string]any{"kind": a.Kind, "node": a.Node, "ord": a.Ord, "after": after, "how": how}})
+		}
+	}
+	if cpAfter != nil && !w.hung {
 		cl.Restore(cpAfter)
 		if w.next < nextAfter {
 			w.next = nextAfter
 		}
 	}
 }
+
+// calls at which the caller's context is ended
+var cancelKinds = map[string]bool{"pluginAlloc": true, "storeCreateProcessing": true, "engineCreate": true, "storeAddWorkload": true,
+	"engineStart": true, "pluginSetUsage:decr": true, "storeRemoveWorkload": true, "engineRemove": true, "pluginRealloc": true,
+	"storeUpdateWorkload": true, "engineStop": true, "walLog:create-processing": true}
 
 // corpus: fixed histories run first on every invocation, every fault address enumerated — the
 // places where defects were found (D11, D12, D13, D16c, D25) and the seeded changes that once escaped.
@@ -1086,8 +1212,13 @@ func (d *driver) corpus() {
 	}
 	run := func(w *world, setup []map[string]any, name string, all bool, ops ...op) {
 		for i, o := range ops {
+			if w.hung {
+				d.hung = true
+				return
+			}
 			d.step(w, o, w.preSnap(), fmt.Sprintf("corpus-%s-o%d", name, i), setup, all, false)
 		}
+		d.hung = d.hung || w.hung
 	}
 	// A: memory limit above the request, node filled to the brim, growing realloc must be refused
 	w, setup := mk(ckit.NodeSpec{Name: "n0", Pod: "p0", CPU: 4, Memory: 1000 * mib})
@@ -1110,7 +1241,16 @@ func (d *driver) corpus() {
 		op{"op": "remove", "ids": []int{1}},
 		op{"op": "dissociate", "ids": []int{3}},
 		op{"op": "addnode", "node": "x1", "pod": "p0", "cpu": 2, "mem": 512 * mib},
-		op{"op": "removenode", "node": "x1"})
+		op{"op": "removenode", "node": "x1"},
+		op{"op": "fixnode", "node": "n0", "fix": true})
+	if d.hung {
+		return
+	}
+	// C: FILL to a level one node has already reached: the plan contains a node with ZERO new instances
+	w, setup = mk(ckit.NodeSpec{Name: "n0", Pod: "p0", CPU: 4, Memory: 2048 * mib}, ckit.NodeSpec{Name: "n1", Pod: "p0", CPU: 4, Memory: 2048 * mib})
+	run(w, setup, "fill", false,
+		op{"op": "create", "pod": "p0", "app": "app0", "count": 2, "strategy": "FILL", "mem": 64 * mib, "includes": []string{"n1"}},
+		op{"op": "create", "pod": "p0", "app": "app0", "count": 2, "strategy": "FILL", "mem": 64 * mib})
 }
 
 // concurrent: pairs of operations on DIFFERENT workloads of the same node started together
@@ -1138,13 +1278,15 @@ func (d *driver) concurrent(trials int) {
 		ib := (ia + 1 + d.r.Intn(len(pre.Wls)-1)) % len(pre.Wls)
 		mkOp := func(kind string, x wlJ) op {
 			switch kind {
+			case "fixnode":
+				return op{"op": "fixnode", "node": x.Node, "fix": true}
 			case "realloc":
 				return op{"op": "realloc", "id": x.ID, "mem": d.r.Range(1, 4) * 64 * mib}
 			default:
 				return op{"op": kind, "ids": []int{x.ID}}
 			}
 		}
-		oa := mkOp(hx.Pick(d.r, "remove", "dissociate", "realloc"), pre.Wls[ia])
+		oa := mkOp(hx.Pick(d.r, "remove", "dissociate", "realloc", "fixnode", "fixnode"), pre.Wls[ia])
 		ob := mkOp(hx.Pick(d.r, "remove", "dissociate"), pre.Wls[ib])
 		ra, rb := w.realID(pre.Wls[ia].ID), w.realID(pre.Wls[ib].ID)
 		call := func(o op, real string) {
@@ -1162,6 +1304,8 @@ func (d *driver) concurrent(trials int) {
 				}
 			case "realloc":
 				_ = cl.C.ReallocResource(ctx, &types.ReallocOptions{ID: real, Resources: wlRequest(o)})
+			case "fixnode":
+				_, _ = cl.C.NodeResource(ctx, o.s("node"), true)
 			}
 		}
 		var trace []ckit.Event
@@ -1177,6 +1321,9 @@ func (d *driver) concurrent(trials int) {
 			})
 		})
 		argsOf := func(o op, x wlJ) map[string]any {
+			if o.s("op") == "fixnode" {
+				return map[string]any{"node": x.Node, "fix": true}
+			}
 			if o.s("op") == "realloc" {
 				var answer any
 				for _, e := range trace {
